@@ -1,8 +1,78 @@
 import PybtexModel.Drv.Json
+import PybtexModel.Drv.C03
+import PybtexModel.Drv.C20
+import PybtexModel.Model.Engine
 open Lean
 namespace Pybtex.Drv.C06
+open Pybtex.Engine
 
-/-- driver ops of this property: (op name, handler) -/
-def handlers : List (String × (Json → Except String Json)) := []
+def lookupFile (l : List (Str × α)) (p : Str) : Option α := (l.find? fun x => x.1 = p).map (·.2)
+
+def parsePerson (j : Json) : Except String Person := do
+  let a ← j.getArr?
+  let g := fun (i : Nat) => do
+    let l ← (a[i]!).getArr?
+    l.toList.mapM jsonToStr
+  pure { first := ← g 0, middle := ← g 1, prelast := ← g 2, last := ← g 3, lineage := ← g 4 }
+
+def parseEntry (j : Json) : Except String (Str × Bib.Entry) := do
+  let key ← getStr j "key"
+  let ty ← getStr j "type"
+  let ot ← getStr j "orig_type"
+  let fields ← (← getArr j "fields").mapM fun f => do
+    let a ← f.getArr?
+    pure ((← jsonToStr a[0]!), (← jsonToStr a[1]!))
+  let persons ← (← getArr j "persons").mapM fun r => do
+    let a ← r.getArr?
+    let ps ← (← (a[1]!).getArr?).toList.mapM parsePerson
+    pure ((← jsonToStr a[0]!), ps)
+  pure (key, { key := key, type := ty, origType := ot, fields := fields, persons := persons })
+
+def errJ : Engine.Err → Json
+  | .aux a => arr [Json.str "AUX", Drv.C20.fatalJ a.fatal]
+  | .cannotOpen p => arr [Json.str "PybtexError", strToJson p]
+  | .bstSyntax => arr [Json.str "BST-SYNTAX", Json.null]
+  | .run e => arr [Json.str "RUN", C03.ierrJ e]
+
+def makebib (j : Json) : Except String Json := do
+  let auxFiles ← (← getArr j "aux_files").mapM fun f => do
+    let a ← f.getArr?
+    let ls ← (← (a[1]!).getArr?).toList.mapM jsonToStr
+    pure ((← jsonToStr a[0]!), ls)
+  let texts ← (← getArr j "texts").mapM fun f => do
+    let a ← f.getArr?
+    pure ((← jsonToStr a[0]!), (← jsonToStr a[1]!))
+  let files : Files := { aux := lookupFile auxFiles, text := lookupFile texts }
+  let mc ← getInt j "min_crossrefs"
+  let alt ← match j.getObjVal? "alt" with
+    | .ok (Json.obj _) => do
+      let a ← j.getObjVal? "alt"
+      let es ← (← getArr a "entries").mapM parseEntry
+      let pre ← getStrList a "preamble"
+      pure (some (es, pre))
+    | _ => pure none
+  let mode ← (← j.getObjVal? "mode").getStr?
+  if mode = "aux" then
+    let top ← getStr j "top"
+    let so ← match j.getObjVal? "style_override" with
+      | .ok (Json.str s) => pure (some s.toList)
+      | _ => pure none
+    let suffix ← getStr j "suffix"
+    match makeBibliography files top (auxFiles.length + 1) so suffix mc alt with
+    | .error e => pure (obj [("out", obj [("error", errJ e)])])
+    | .ok (r, auxReports) =>
+      pure (obj [("out", obj [("bbl", strToJson r.bbl), ("reports", arr (r.reports.map C03.reportJ)),
+                              ("printed", strs r.printed), ("aux_errors", nat auxReports.length)])])
+  else
+    let names ← getStrList j "bib_names"
+    let style ← getStr j "style"
+    let cites ← getStrList j "citations"
+    match formatFromFiles files names style cites mc alt with
+    | .error e => pure (obj [("out", obj [("error", errJ e)])])
+    | .ok r =>
+      pure (obj [("out", obj [("bbl", strToJson r.bbl), ("reports", arr (r.reports.map C03.reportJ)),
+                              ("printed", strs r.printed), ("aux_errors", nat 0)])])
+
+def handlers : List (String × (Json → Except String Json)) := [("makebib", makebib)]
 
 end Pybtex.Drv.C06
